@@ -409,7 +409,7 @@ func c09Prop(t *rapid.T) {
 }
 
 func TestC09(t *testing.T) {
-	evid.Extra("rule", "C09: two (a quarter of the cases: three) install operations from an empty history, install --replace operations over an uninstalled release with kept history, or upgrade operations from a deployed history of one or three revisions (with history limits 0-3), on one release name, each with its own Configuration, on the memory, Secret and ConfigMap backends; every storage call, cluster request and waiter call of every operation blocks at a gate until a scheduler grants it; the scheduler waits until every unfinished operation is blocked and then lets the operation named by the next element of a rapid-drawn choice list proceed - a deterministic, shrinkable interleaving at exactly the granularity the property names. At quiescence: every storage key was successfully created by exactly one operation; an operation that created no revision failed with an already-exists / in-progress / name-in-use error and sent no mutating cluster request and no successful storage write (except install --replace re-marking the uninstalled last revision superseded, and history pruning of revisions that are neither deployed nor pending at that moment - both things the winner does too); the [first, last storage write] windows of operations that created revisions do not overlap; the final history has unique consecutive new revisions, at most one deployed, nothing pending. Non-trivial = an operation's first storage access lies between another operation's first storage access and its last storage write; distinct by (backend, start, operations, schedule taken).")
+	evid.Extra("rule", "C09: two (a quarter of the cases: three) install operations from an empty history, install --replace operations over an uninstalled release with kept history, or upgrade operations from a deployed history of one or three revisions (with history limits 0-3), on one release name (one non-atomic upgrade in five fails in its readiness wait after creating its revision; from an empty history one case in four is an atomic install whose wait fails next to a plain upgrade), each with its own Configuration, on the memory, Secret and ConfigMap backends; every storage call, cluster request and waiter call of every operation blocks at a gate until a scheduler grants it; the scheduler waits until every unfinished operation is blocked and then lets the operation named by the next element of a rapid-drawn choice list proceed - a deterministic, shrinkable interleaving at exactly the granularity the property names. At quiescence: every storage key was successfully created by exactly one operation; an operation that created no revision failed with an already-exists / in-progress / name-in-use error and sent no mutating cluster request and no successful storage write (except install --replace re-marking the uninstalled last revision superseded, and history pruning of revisions that are neither deployed nor pending at that moment - both things the winner does too); the [first, last storage write] windows of operations that created revisions do not overlap; the final history has unique consecutive new revisions, at most one deployed, nothing pending. Non-trivial = an operation's first storage access lies between another operation's first storage access and its last storage write; distinct by (backend, start, operations, schedule taken).")
 	evid.Extra("assumptions", []string{"manifests have one resource per kind and hooks are off, so an operation has one call in flight", "crds/ directories are not used (CRD installation legitimately precedes the record creation)", "the fake clientset's create is atomic; API-server optimistic concurrency is not modelled"})
 	rapid.Check(t, c09Prop)
 }
